@@ -82,7 +82,8 @@ def gen_cases(rng, tier):
                 peaks.insert(rng.randrange(len(peaks)), pocket)        # never last: the peaks after it must still be examined
             percs.append({'axes': axes, 'peaks': peaks})
         sites = [[rng.randint(-3, 12) for _ in range(3)] for _ in range(4)]
-        cases.append({'dims': dims, 'en8': en, 'thr8': thr8, 'diag': rng.random() < 0.6, 'queries': queries, 'percs': percs, 'sites': sites})
+        cases.append({'dims': dims, 'en8': en, 'thr8': thr8, 'diag': rng.random() < 0.6, 'queries': queries, 'percs': percs, 'sites': sites,
+                      'layout': rng.choice(['C', 'C', 'F', 'view'])})
     return cases
 
 
@@ -100,6 +101,10 @@ def impl(case):
     from gemdat.volume import FreeEnergyVolume
     dims = case['dims']
     F = np.array(case['en8'], dtype=float).reshape(dims) / SC
+    if case.get('layout') == 'F':
+        F = np.asfortranarray(F)          # same values by index, other memory layout
+    elif case.get('layout') == 'view':
+        F = np.ascontiguousarray(F.transpose(2, 0, 1)).transpose(1, 2, 0)
     thr = case['thr8'] / SC
     F0 = F.copy()
     G = free_energy_graph(F, max_energy_threshold=thr, diagonal=case['diag'])
